@@ -221,6 +221,8 @@ func (fv *FV) bindContract(c *Contract, st *State, args []Value, argTypes []type
 func (fv *FV) applyContract(fr *Frame, st *State, c *Contract, args []Value, argTypes []types.Type, results *types.Tuple, x ssa.Instruction, calleeName string) []Outcome {
 	if c.Trusted {
 		fv.trusted[c.Pkg+"::"+c.Key] = true
+	} else {
+		fv.used[c.Pkg+"::"+c.Key] = true
 	}
 	ord := fv.ordinal("call "+calleeName, x)
 	env := fv.bindContract(c, st, args, argTypes)
